@@ -1,5 +1,5 @@
-\* exhaustive (thorough): all histories of <= 5 calls; 2 snapshots, 2 load handles; growth to 12 nodes
-CONSTANTS Slots = {1, 2}  Handles = {1, 2}  MaxLevel = 6  MaxNodes = 12  MutNodes = {7}
+\* exhaustive (thorough): all histories of <= 4 calls, parameter mutations on three nodes; 2 snapshots, 2 load handles; growth to 12 nodes
+CONSTANTS Slots = {1, 2}  Handles = {1, 2}  MaxLevel = 5  MaxNodes = 12  MutNodes = {3, 7, 8}
 INIT Init
 NEXT Next
 CONSTRAINT Bound
